@@ -567,6 +567,9 @@ def shape_catalogue():
         prog(f"jump_dead_{tname}", [_u(1), ("jump", "e"), _u(2), ("label", "e"), _u(3)] + tail)
         prog(f"cross_{tname}", [_u(1), ("if", [(False, [_c(10)], [("jump", "r1")])], None)] + tail, [[("label", "r1"), _u(2), ("if", [(True, [_c(11)], [("jump", "e0")])], None), _u(3), ("label", "e0")]])
         prog(f"cross_into_if_block_{tname}", [("if", [(False, [_c(10)], [("label", "xb"), _u(1)])], None), _u(2)] + tail, [[_u(3), ("jump", "xb")]])
+        prog(f"cross_into_if_block_ret_{tname}", [("if", [(False, [_c(10)], [("label", "xr"), _u(1), ("ctrl", "return")])], None), _u(2)] + tail, [[_u(3), ("jump", "xr")]])
+        prog(f"cross_into_case_block_plainjump_{tname}", [("switch", sw, [(case(1), [_u(1), ("ctrl", "break")]), (case(2), [("label", "xp"), _u(2), ("ctrl", "break")])]), _u(3)] + tail,
+             [[_u(4), ("jump", "xp")]])
         prog(f"cross_into_else_block_{tname}", [("if", [(True, [_c(10)], [_u(1)])], [("label", "xe"), _u(2)]), _u(3)] + tail,
              [[("if", [(False, [_c(11)], [("jump", "xe")])], None), _u(4), ("ctrl", "end")]])
         prog(f"cross_into_case_block_{tname}", [("switch", sw, [(case(1), [("label", "xc"), _u(1), ("ctrl", "break")]), (case(2), [_u(2)])]), _u(3)] + tail,
